@@ -519,6 +519,9 @@ func (db *DB) loadIndexFromDataFiles(fileIds []uint32, nonMergeFileId uint32) er
 	// 属于批处理提交的相关暂存数据
 	transactionRecords := make(map[uint64][]*datafile.TransactionRecords)
 
+	// 活跃文件末尾是否残留未完整写入的记录
+	tornTail := false
+
 	// 从小到大遍历数据文件 id 顺序更新索引, 保证最终索引记录最新数据信息
 	for _, fileId := range fileIds {
 		// 已通过 hint 文件加载, 无需重复加载
@@ -537,6 +540,10 @@ func (db *DB) loadIndexFromDataFiles(fileIds []uint32, nonMergeFileId uint32) er
 			logRecord, pos, err := reader.NextLogRecord()
 			if err != nil {
 				if err == io.EOF {
+					// 活跃文件末尾残留未完整写入的记录(如断电)
+					if fileId == db.activeFile.ID && reader.Offset() < dataFile.Size() {
+						tornTail = true
+					}
 					break
 				}
 				return err
@@ -565,6 +572,11 @@ func (db *DB) loadIndexFromDataFiles(fileIds []uint32, nonMergeFileId uint32) er
 				}
 			}
 		}
+	}
+
+	// 不得在残缺记录之后继续追加, 否则残缺字节被夹在有效记录之间, 下次启动将解析失败: 封存该文件并切换到新的活跃文件
+	if tornTail {
+		return db.sync()
 	}
 
 	return nil
